@@ -302,6 +302,7 @@ class EscapeIsSafe(Contract):
 @register
 class ElementAttributesAreEscaped(Contract):
   prop = 'C20'
+  bounded = True       # stated bound: the loop over **properties runs over two keyword properties
   target = f'{HB}:Html.element'
   raises = {Exception: ()}
   max_paths = 3000
